@@ -295,9 +295,16 @@ class ExecBase:
         s = v.ty.sort()
         return s.keys(v.term), s.n(v.term), s.has(v.term), s.val(v.term), s.idx(v.term)
 
+    def dict_has_term(self, v: V, kt):
+        """k in d  <=>  0 <= idx[k] < n and keys[idx[k]] == k   (membership is derived from the ordered key list, so an empty
+        dict has no members and no separate representation invariant is needed for it)"""
+        keys, n, _, val, idx = self.dict_parts(v)
+        ix = z3.Select(idx, kt)
+        return z3.And(0 <= ix, ix < n, z3.Select(keys, ix) == kt)
+
     def dict_has(self, v: V, k: V):
         k = coerce(k, v.ty.args[0])
-        return z3.Select(self.dict_parts(v)[2], to_smt(k))
+        return self.dict_has_term(v, to_smt(k))
 
     def dict_get_raw(self, v: V, k) -> V:
         kt = to_smt(coerce(k, v.ty.args[0])) if isinstance(k, V) else k
@@ -307,7 +314,7 @@ class ExecBase:
         kt = to_smt(coerce(k, v.ty.args[0])) if isinstance(k, V) else k
         keys, n, has, val, idx = self.dict_parts(v)
         x = coerce(x, v.ty.args[1])
-        present = z3.Select(has, kt)
+        present = self.dict_has_term(v, kt)
         s = v.ty.sort()
         nv = s.mk(z3.If(present, keys, z3.Store(keys, n, kt)), z3.If(present, n, n + 1), z3.Store(has, kt, True),
                   z3.Store(val, kt, to_smt(x)), z3.If(present, idx, z3.Store(idx, kt, n)))
@@ -320,10 +327,7 @@ class ExecBase:
         k = z3.Const(fresh_name('k'), v.ty.args[0].sort())
         return z3.And(
             n >= 0,
-            z3.ForAll([i], z3.Implies(z3.And(0 <= i, i < n), z3.And(z3.Select(has, z3.Select(keys, i)), z3.Select(idx, z3.Select(keys, i)) == i)),
-                      patterns=[z3.Select(keys, i)]),
-            z3.ForAll([k], z3.Implies(z3.Select(has, k), z3.And(0 <= z3.Select(idx, k), z3.Select(idx, k) < n, z3.Select(keys, z3.Select(idx, k)) == k)),
-                      patterns=[z3.Select(has, k)]),
+            z3.ForAll([i], z3.Implies(z3.And(0 <= i, i < n), z3.Select(idx, z3.Select(keys, i)) == i), patterns=[z3.Select(keys, i)]),
         )
 
     # ------------------------------------------------------------------ misc
